@@ -430,6 +430,61 @@ TextCall(fn, vs) ==      \* vs scalars
               [] vs[1].k = "t" -> LET p == ParseNumber(vs[1].s)
                                   IN IF p = NotNumeric THEN VALUE ELSE p
 
+\* ---- beyond the list of C12 (same value universe, replayed for information) ----------
+\* MAXA / MINA / AVERAGEA: text and logicals count too (text 0, TRUE 1, FALSE 0)
+AItem(x, direct) ==
+  CASE x.k = "e" -> x
+    [] x.k = "n" -> x
+    [] x.k = "b" -> IF x.b THEN One ELSE Zero
+    [] x.k = "t" -> IF direct
+                    THEN (LET p == ParseNumber(x.s) IN IF p = NotNumeric THEN VALUE ELSE p)
+                    ELSE Zero
+    [] OTHER -> Skip
+RECURSIVE AItemsOf(_)
+AItemsOf(args) ==
+  IF args = <<>> THEN <<>>
+  ELSE LET a == Head(args)   fl == Flat(a)
+       IN [i \in 1..Len(fl) |-> AItem(fl[i], IsDirect(a))] \o AItemsOf(Tail(args))
+AggA(fn, args) ==
+  LET items == AItemsOf(args)   errs == ErrsIn(items)   ns == NumsIn(items)   n == Len(ns)
+  IN IF errs # {} THEN OneOf(errs)
+     ELSE CASE fn = "MAXA" -> IF n = 0 THEN Zero ELSE MaxSeq(ns)
+            [] fn = "MINA" -> IF n = 0 THEN Zero ELSE MinSeq(ns)
+            [] fn = "AVERAGEA" -> IF n = 0 THEN DIV0 ELSE NDiv(SumSeq(ns), IntV(n))
+\* GCD / LCM of truncated non-negative numbers
+RECURSIVE GcdSeq(_), LcmSeq(_)
+GcdSeq(s) == IF s = <<>> THEN 0 ELSE GCD(Head(s), GcdSeq(Tail(s)))
+LcmSeq(s) == IF s = <<>> THEN 1
+             ELSE LET r == LcmSeq(Tail(s))  h == Head(s)
+                  IN IF h = 0 \/ r = 0 THEN 0 ELSE (h * r) \div GCD(h, r)
+GcdLcm(fn, args) ==
+  LET items == ItemsOf(args)   errs == ErrsIn(items)   ns == NumsIn(items)
+      ints == [i \in 1..Len(ns) |-> NTrunc(ns[i]).n]
+  IN IF errs # {} THEN OneOf(errs)
+     ELSE IF \E i \in 1..Len(ints) : ints[i] < 0 THEN NUM
+     ELSE IF fn = "GCD" THEN IntV(GcdSeq(ints)) ELSE IntV(LcmSeq(ints))
+RECURSIVE FactN(_)
+FactN(n) == IF n <= 1 THEN 1 ELSE n * FactN(n - 1)
+MRound(x, mlt) ==
+  IF mlt.n = 0 \/ x.n = 0 THEN Zero
+  ELSE IF NSign(x) # NSign(mlt) THEN NUM
+  ELSE LET q == NDiv(NAbs(x), NAbs(mlt))
+           r == IntV((2 * q.n + q.d) \div (2 * q.d))         \* half away from zero
+       IN NMul(r, mlt)
+Extra1(fn, v) ==       \* one scalar
+  IF v.k = "e" THEN v
+  ELSE CASE fn = "T" -> IF v.k = "t" THEN v ELSE Txt(<<>>)
+         [] fn = "CODE" -> LET s == TextOf(v) IN IF s = <<>> THEN VALUE ELSE IntV(s[1])
+         [] fn = "CHAR" -> LET x == Coerce(v)
+                           IN IF x.k = "e" THEN x
+                              ELSE LET c == NTrunc(x).n
+                                   IN IF c < 1 \/ c > 255 THEN VALUE ELSE Txt(<<c>>)
+         [] fn = "FACT" -> LET x == Coerce(v)
+                           IN IF x.k = "e" THEN x ELSE IF x.n < 0 THEN NUM
+                              ELSE IF NTrunc(x).n > 170 THEN NUM          \* beyond the double range
+                              ELSE IF NTrunc(x).n > 12 THEN ApproxF("FACT", <<NTrunc(x)>>, 1)
+                              ELSE IntV(FactN(NTrunc(x).n))
+
 \* CONCAT: every item of every argument, in order; CONCATENATE: scalars only
 RECURSIVE JoinAll(_)
 JoinAll(xs) == IF xs = <<>> THEN <<>> ELSE TextOf(Head(xs)) \o JoinAll(Tail(xs))
